@@ -113,6 +113,10 @@ def gen(rng, tier):
             else:
                 assign.append(rng.choice(OUTCOMES + EXTRA_OUTCOMES))
         yield "verify %s %s" % ("|".join(pols), outs_txt(assign))
+        # the same chain through the public constructors: a clone of the first policy; created policies chained by setFallback
+        yield "verifyc %s %s" % ("|".join(pols), outs_txt(assign))
+        if "-" not in pols:
+            yield "verifyf %s %s" % ("|".join(pols), outs_txt(assign))
 
 
 def trivial(cls):
